@@ -22,9 +22,8 @@ MUTANTS = {
     "c14-update-no-need-update": ("C14", "EasyFEA/Simulations/_simu.py",
         "        if isinstance(observable, _IModel):\n            self.Need_Update()\n        elif isinstance(observable, Mesh):",
         "        if isinstance(observable, _IModel):\n            pass\n        elif isinstance(observable, Mesh):"),
-    "c14-meshsetter-keeps-cache": ("C14", "EasyFEA/Simulations/_simu.py",
-        "            # iteration — exactly the case those caches exist to serve.\n            clear_cached_computed_values(self)\n",
-        "            # iteration — exactly the case those caches exist to serve.\n"),
+    # (dropped as equivalent: removing clear_cached_computed_values from the mesh setter changes nothing observable,
+    #  every memo key contains the identity of the element groups of the new mesh)
     "c14-coord-setter-silent": ("C14", "EasyFEA/FEM/_mesh.py",
         "            groupElem.coord = coord\n        self._Notify(\"The mesh has been modified\")\n",
         "            groupElem.coord = coord\n"),
@@ -131,6 +130,24 @@ MUTANTS = {
         "            if np.max(np.abs(r_e_pg)) < tol:\n                break\n",
         "            if np.max(np.abs(r_e_pg)) < 1e6 * tol:\n                break\n"),
     # ---- C17
+    "c17-2d-discriminant-not-clipped": ("C17", "EasyFEA/Models/_phasefield.py",
+        "            delta = np.clip(tr_e_pg**2 - (4 * det_e_pg), 0, None)\n",
+        "            delta = tr_e_pg**2 - (4 * det_e_pg)\n"),
+    "c17-3d-repeated-value-sign": ("C17", "EasyFEA/Models/_phasefield.py",
+        "                    val2_np[case2][:, None, None] * eye - mat_np[case2]\n",
+        "                    val1_np[case2][:, None, None] * eye - mat_np[case2]\n"),
+    "c17-3d-exact-equality-cases": ("C17", "EasyFEA/Models/_phasefield.py",
+        "            case2 = g_neq_0 & (arg_np <= -1 + 1e-10)\n",
+        "            case2 = g_neq_0 & (arg_np == -1)\n"),
+    "c18-gonzalez-tangent-unscaled": ("C18", "EasyFEA/Simulations/_hyperelastic.py",
+        "                F_e -= np.einsum(\n                    \"eij,ej->ei\",\n                    M_e,\n",
+        "                F_e -= 0.5 * np.einsum(\n                    \"eij,ej->ei\",\n                    M_e,\n"),
+    "c19-save-iter-moves-trial": ("C19", "EasyFEA/Simulations/_inelastic.py",
+        "        self.__zOld = {et: arr.copy() for et, arr in self.__z.items()}\n",
+        "        self.__zOld, self.__z = self.__z, {}\n"),
+    "c11-getter-returns-reference": ("C11", "EasyFEA/Utilities/_params.py",
+        "        return copy.copy(instance.__dict__[self.__name])\n",
+        "        return instance.__dict__[self.__name]\n"),
     "c17-history-max-dropped": ("C17", "EasyFEA/Simulations/_phasefield.py",
         "            psiP_e_pg[elements, gaussPoints] = old_psiPlus_e_pg[elements, gaussPoints]\n",
         "            pass\n"),
